@@ -3,6 +3,7 @@ package rules
 import (
 	"fmt"
 	"go/token"
+	"go/types"
 	"os"
 	"strings"
 
@@ -1077,6 +1078,48 @@ func ruleAgree(c *Ctx) {
 		})
 		return ok
 	}
+	// ... or the tag helper already returns exactly the mark as a [markLen]byte array (filled from the start of the full tag);
+	// then the whole array is "the first markLen bytes of the tag"
+	tagArrayMark := func(v ssa.Value) bool {
+		s, isS := v.(*ssa.Slice)
+		if !isS || s.Low != nil || s.High != nil {
+			return false
+		}
+		al, isA := s.X.(*ssa.Alloc)
+		if !isA {
+			return false
+		}
+		arr, isArr := al.Type().Underlying().(*types.Pointer).Elem().Underlying().(*types.Array)
+		if !isArr || arr.Len() != mark {
+			return false
+		}
+		fromTag := false
+		for _, r := range *al.Referrers() {
+			if st, ok := r.(*ssa.Store); ok && st.Addr == ssa.Value(al) && isTag(st.Val) {
+				fromTag = true
+			}
+		}
+		if !fromTag || tagFn == nil {
+			return false
+		}
+		// inside the tag helper the returned array is filled by copy(arr[:], full[:…]) from the start of the full tag
+		for _, cl := range eng.Calls(tagFn) {
+			call, ok := cl.(*ssa.Call)
+			if !ok {
+				continue
+			}
+			if b, ok := call.Call.Value.(*ssa.Builtin); !ok || b.Name() != "copy" {
+				continue
+			}
+			src, isSl := call.Call.Args[1].(*ssa.Slice)
+			if isSl && src.Low == nil {
+				return true
+			}
+		}
+		return false
+	}
+	markOfTag0 := markOfTag
+	markOfTag = func(v ssa.Value) bool { return markOfTag0(v) || tagArrayMark(v) }
 	// IsServerSalt compares tag[:markLen] with the mark part
 	okCmp := false
 	for _, call := range ireg.FindCalls(func(n string, _ *ssa.Call) bool { return isCompare(n) }) {
@@ -1096,6 +1139,9 @@ func ruleAgree(c *Ctx) {
 				d := isSplit(1)(call.Call.Args[0])
 				s2 := p.AnyFrom(call.Call.Args[1], thru, isTag)
 				s3, _ := p.AllFrom(call.Call.Args[1], thru, isTag)
+				if tagArrayMark(call.Call.Args[1]) {
+					s2, s3 = true, true
+				}
 				if d && s2 && s3 {
 					okCopy = true
 				}
